@@ -901,6 +901,49 @@ func calleeName(c *ssa.CallCommon) string {
 	return "dynamic"
 }
 
+// singleAssignedLiteral: v is a load from a local cell whose only store puts a function literal there (a closure, or -
+// for a literal without free variables - the anonymous function itself).
+func singleAssignedLiteral(v ssa.Value) (*ssa.MakeClosure, *ssa.Function) {
+	u, ok := v.(*ssa.UnOp)
+	if !ok || u.Op != token.MUL {
+		return nil, nil
+	}
+	al, ok := u.X.(*ssa.Alloc)
+	if !ok || al.Referrers() == nil {
+		return nil, nil
+	}
+	var mc *ssa.MakeClosure
+	var fn *ssa.Function
+	n := 0
+	for _, r := range *al.Referrers() {
+		switch x := r.(type) {
+		case *ssa.Store:
+			if x.Addr != al {
+				return nil, nil // the address escapes into another cell
+			}
+			n++
+			switch m := x.Val.(type) {
+			case *ssa.MakeClosure:
+				mc = m
+			case *ssa.Function:
+				if m.Parent() == nil {
+					return nil, nil
+				}
+				fn = m
+			default:
+				return nil, nil
+			}
+		case *ssa.UnOp, *ssa.DebugRef:
+		default:
+			return nil, nil // address taken (captured by another closure, passed on): be conservative
+		}
+	}
+	if n != 1 {
+		return nil, nil
+	}
+	return mc, fn
+}
+
 func (g *Gen) sliceLen(x ssa.Value, st *State) string {
 	t := x.Type().Underlying()
 	if p, ok := t.(*types.Pointer); ok {
@@ -1867,6 +1910,23 @@ func (g *Gen) call0(c *ssa.CallCommon, res ssa.Value, st *State, pos token.Pos) 
 		}
 		g.inlineExec(mc, c.Args, st)
 		return
+	}
+	// `f := func(...){...}; … f(x)`: a call through a local that is assigned exactly once, with a function literal that
+	// has a contract, is a call of that literal (without a contract it stays a dynamic call, as before)
+	if mc, fn := singleAssignedLiteral(c.Value); mc != nil {
+		if g.callLiteralByContract(mc, c.Args, res, st, pos) {
+			return
+		}
+	} else if fn != nil {
+		// a literal without free variables is a plain function value
+		if ctr := g.lookupContract(fn); ctr != nil {
+			var ats []Term
+			for i := range args {
+				ats = append(ats, av(i))
+			}
+			g.callWithContract(fn, ctr, ats, res, st, pos)
+			return
+		}
 	}
 	if name == "sync/atomic.AddInt64" || name == "sync/atomic.AddInt32" {
 		a := g.resolveAddr(args[0], st)
